@@ -1,6 +1,7 @@
 //! C02 scenario: delegation follows entitlements, never over-claims, converges and is idempotent.
 //!
-//! One in-process Krill runtime hosts TA -> a -> {b -> {c -> e, d, l}, d}: `d` has two parents, `e` may be
+//! One in-process Krill runtime hosts TA -> a -> {b -> {c -> e, d, l}, d -> {f, g}, g}: `d` has two parents (and so two
+//! resource classes of its own, under which it delegates to `f` and `g`), `g` has the parents `a` and `d`, `e` may be
 //! known to `c` under a mapped class name, and `l` is a child of `b` that never synchronises itself: the
 //! harness speaks RFC 6492 on its behalf (list / issue with request limits / revoke) through
 //! `CaManager::rfc6492`, because Krill children never send limits.
@@ -14,7 +15,14 @@
 //!             and after the last command of the call the child certificates decoded from the CA's
 //!             published-object store;
 //!  * CSync  - one per call of the sync driver: parent class / child details / child class before and after;
-//!  * CSettle- every CA synchronises top-down until a round stores no command.
+//!  * CSettle- every CA synchronises top-down until a round stores no command;
+//!  * CDropRev- a CA gave up a resource class: the class and the revocation requests of the stored event;
+//!  * CHeld  - after settling (and at the checkpoints of the scripted histories): parent and child of a pair in full.
+//!
+//! Scripted in every history, right after the set-up (`scripted`): a child that holds everything its parent has
+//! while the parent shrinks to a strict subset; a child of the two-class parent `d` whose entitlement in one class is
+//! taken away, given back and taken away again (class names aligned / crossed); the same for `g`, which has another
+//! parent first (its own class names never coincide with `d`'s), optionally ending with `g` removing the parent `d`.
 use std::collections::{BTreeMap, BTreeSet};
 use std::str::FromStr;
 use std::sync::{Arc, Mutex};
@@ -30,9 +38,9 @@ use rpki::ca::provisioning;
 use rpki::repository::resources::ResourceSet;
 use serde_json::{json, Value};
 
-const CAS: [&str; 6] = ["a", "b", "c", "d", "e", "l"];
+const CAS: [&str; 8] = ["a", "b", "c", "d", "e", "l", "f", "g"];
 /// (parent, child) pairs that synchronise through Krill's own driver, top-down
-const PAIRS: [(&str, &str); 5] = [("a", "b"), ("a", "d"), ("b", "c"), ("b", "d"), ("c", "e")];
+const PAIRS: [(&str, &str); 8] = [("a", "b"), ("a", "d"), ("b", "c"), ("b", "d"), ("c", "e"), ("d", "f"), ("a", "g"), ("d", "g")];
 const N_ATOMS: u32 = 12;
 const VALID_S: i64 = 52 * 7 * 86400;
 const THR_S: i64 = 4 * 7 * 86400;
@@ -309,7 +317,7 @@ fn versions(s: &Snap) -> u64 { s.values().map(|c| c.as_ref().map(|c| c.version()
 struct Out {
     w: CaseWriter, jsonl: std::fs::File,
     op_hist: BTreeMap<String, u64>, cmd_hist: BTreeMap<String, u64>, err_hist: BTreeMap<String, u64>, kind_hist: BTreeMap<String, u64>,
-    shrink_hist: BTreeMap<String, u64>, settle_rounds: BTreeMap<String, u64>,
+    shrink_hist: BTreeMap<String, u64>, settle_rounds: BTreeMap<String, u64>, script_hist: BTreeMap<String, u64>,
     distinct: BTreeSet<String>, samples: Vec<Value>, impl_failures: Vec<Value>,
 }
 impl Out {
@@ -407,6 +415,19 @@ fn emit_cmd_cases(sys: &Sys, it: &mut It, before: &Snap, after: &Snap, op: &Valu
             let rec = json!({"kind": "cmd", "history": hist, "ca": h, "op": op, "command": ty, "error": is_err, "class": class,
                 "details": scv["details"], "events": scv["effect"]["events"].as_array().map(|a| a.iter().map(|e| jstr(&e["type"])).collect::<Vec<_>>())});
             let mut o = out.lock().unwrap();
+            // a class given up (not by removing the parent: those revocations are sent by the manager itself, best effort)
+            if ty != "remove_parent" {
+                for e in scv["effect"]["events"].as_array().map(|a| a.iter().filter(|e| e["type"] == "resource_class_removed").collect::<Vec<_>>()).unwrap_or_default() {
+                    let name = jstr(&e["resource_class_name"]);
+                    let rc = &pre_j["resources"][name.as_str()];
+                    if rc.is_null() { continue }
+                    let reqs: Vec<String> = e["revoke_requests"].as_array().map(|a| a.iter().map(|r| format!("({}, {})", it.rcn(&jstr(&r["class_name"])), it.key(&jstr(&r["key"])))).collect()).unwrap_or_default();
+                    let differs = rc["parent_rc_name"].as_str() != Some(name.as_str());
+                    let rec = json!({"kind": "droprev", "history": hist, "ca": h, "op": op, "command": ty, "class": {"kind": "droprev"}, "local_class_name": name,
+                        "parent_class_name": rc["parent_rc_name"], "key_state": keystate_tag(rc), "revoke_requests": e["revoke_requests"]});
+                    o.push(format!("CDropRev {} {}", dclass_term(it, rc), coq_list(&reqs)), rec, format!("droprev|{}|{differs}", keystate_tag(rc)), true);
+                }
+            }
             *o.cmd_hist.entry(format!("{ty}{}", if is_err { ":error" } else { "" })).or_default() += 1;
             let pre_tags: Vec<String> = pre_j["resources"].as_object().map(|m| m.values().map(keystate_tag).collect()).unwrap_or_default();
             o.push(term, rec, format!("cmd|{ty}|{is_err}|{pre_tags:?}|{}", class), true);
@@ -427,6 +448,8 @@ fn sst_term(it: &mut It, p: &Value, x: &Value, ph: &str, xh: &str) -> Option<(u6
 }
 
 fn do_sync(sys: &Sys, it: &mut It, ph: &str, xh: &str, op: &Value, hist: u64, marks: &mut Marks, out: &Mutex<Out>) -> Result<(), String> {
+    // (a CA that removed the parent - end of the scripted history of `g` - has nobody to synchronise with)
+    if ph != "ta" && !sys.ca(xh).ok().map(|c| to_json(&c)["parents"].get(ph).is_some()).unwrap_or(false) { return Err(format!("{xh} has no parent {ph}")) }
     if marks.guard { flush_children(sys, it, xh, op, hist, marks, out); }
     let before = snapshot(sys);
     let now = now_s();
@@ -453,6 +476,31 @@ fn do_sync(sys: &Sys, it: &mut It, ph: &str, xh: &str, op: &Value, hist: u64, ma
         }
     }
     r
+}
+
+/// One CHeld case per (parent, child) pair: what the parent holds and publishes for the child against what the child has.
+fn emit_held(sys: &Sys, it: &mut It, only: Option<(&str, &str)>, stage: &str, op: &Value, hist: u64, out: &Mutex<Out>) {
+    let snap = snapshot(sys);
+    for (p, x) in PAIRS {
+        if let Some(o) = only { if o != (p, x) { continue } }
+        let (Some(Some(pc)), Some(Some(xc))) = (snap.get(p), snap.get(x)) else { continue };
+        let (pj, xj) = (to_json(pc), to_json(xc));
+        if pj["children"].get(x).is_none() { continue }
+        // a certificate without resources (finding F02f) cannot be decoded from the publication: the publication of such a
+        // state is judged where it arises (the CCmd case of that command), here only what the parent holds
+        let empty_cert = pj["resources"].as_object().map(|o| o.values().any(|rc| rc["certificates"]["issued"].as_object().map(|m| m.values().any(|c| res_json_mask(&c["resources"]) == 0)).unwrap_or(false))).unwrap_or(false);
+        let pubs = if empty_cert { "None".to_string() } else { published_child_certs(it, &objs_json(sys, p)) };
+        let term = format!("CHeld {} {} {} {} {}", it.handle(p), dca_term(it, &pj), pubs, it.handle(x), dca_term(it, &xj));
+        let held: Vec<Value> = pj["resources"].as_object().map(|o| o.iter().map(|(n, rc)| json!({"class": n,
+            "issued": rc["certificates"]["issued"].as_object().map(|m| m.keys().cloned().collect::<Vec<_>>()),
+            "suspended": rc["certificates"]["suspended"].as_object().map(|m| m.keys().cloned().collect::<Vec<_>>())})).collect()).unwrap_or_default();
+        let has: Vec<Value> = xj["resources"].as_object().map(|o| o.iter().filter(|(_, rc)| rc["parent_handle"].as_str() == Some(p)).map(|(n, rc)| json!({"class": n,
+            "parent_class_name": rc["parent_rc_name"], "key_state": keystate_tag(rc)})).collect()).unwrap_or_default();
+        let nx = has.len();
+        let rec = json!({"kind": "held", "history": hist, "parent": p, "child": x, "op": op, "stage": stage, "class": {"kind": "held"},
+            "entitlement": pj["children"][x]["resources"], "child_used_keys": pj["children"][x]["used_keys"], "parent_holds": held, "child_classes": has});
+        out.lock().unwrap().push(term, rec, format!("held|{p}|{x}|{nx}|{stage}"), true);
+    }
 }
 
 fn settle(sys: &Sys, it: &mut It, op: &Value, hist: u64, marks: &mut Marks, out: &Mutex<Out>) {
@@ -515,6 +563,8 @@ fn settle(sys: &Sys, it: &mut It, op: &Value, hist: u64, marks: &mut Marks, out:
     let mut o = out.lock().unwrap();
     *o.settle_rounds.entry(rounds.to_string()).or_default() += 1;
     o.push(term, rec, format!("settle|{rounds}|{extra}"), true);
+    drop(o);
+    emit_held(sys, it, None, "settle", op, hist, out);
 }
 
 //------------------------------------------------------------------ the protocol child `l`
@@ -540,10 +590,107 @@ fn limit_from_mask(m: Option<u64>) -> provisioning::RequestResourceLimit {
     l
 }
 
+
+//------------------------------------------------------------------ the scripted histories
+
+/// certificate resources of every class of a CA, by its own class name: (name, mask of the current key's certificate)
+fn class_masks(sys: &Sys, h: &str) -> Vec<(String, u64)> {
+    let j = sys.ca(h).ok().map(|c| to_json(&c)).unwrap_or(Value::Null);
+    let mut v: Vec<(String, u64)> = j["resources"].as_object().map(|o| o.iter().map(|(n, rc)| { let t = keystate_tag(rc); (n.clone(), match t.as_str() {
+        "active" => res_json_mask(&rc["key_state"]["active"]["incoming_cert"]["resources"]),
+        "roll_pending" | "roll_new" => res_json_mask(&rc["key_state"][t.as_str()][1]["incoming_cert"]["resources"]),
+        "roll_old" => res_json_mask(&rc["key_state"]["roll_old"][0]["incoming_cert"]["resources"]), _ => 0 }) }).collect()).unwrap_or_default();
+    v.sort();
+    v
+}
+/// the local name `x` gave its class under parent `p` that `p` calls `prcn`
+fn local_class_name(sys: &Sys, x: &str, p: &str, prcn: &str) -> Option<String> {
+    let ca = sys.ca(x).ok()?;
+    let j = to_json(&ca);
+    j["resources"].as_object()?.iter().find(|(_, rc)| rc["parent_handle"].as_str() == Some(p) && rc["parent_rc_name"].as_str() == Some(prcn)).map(|(n, _)| n.clone())
+}
+
+/// Runs right after the set-up, when the hierarchy is in a known state, in every history of every tier.
+fn scripted(sys: &Sys, it: &mut It, hist: u64, marks: &mut Marks, out: &Mutex<Out>) {
+    let note = |k: String| { *out.lock().unwrap().script_hist.entry(k).or_default() += 1; };
+    macro_rules! step { ($op:expr, $f:expr) => {{ let b = snapshot(sys); let r: Result<(), String> = $f.map_err(|e| e.to_string()); emit_cmd_cases(sys, it, &b, &after(sys), $op, hist, marks, out); r }}; }
+    macro_rules! sync2 { ($op:expr, $p:expr, $x:expr) => {{ for _ in 0..2 { let _ = do_sync(sys, it, $p, $x, $op, hist, marks, out); } }}; }
+
+    // (0) a child that holds EVERYTHING its parent has, then the parent shrinks (at the grandparent) to a strict subset
+    //     of that: the child's certificate must be cut down by the very command that receives the smaller certificate
+    {
+        let all_c = cur_ent(sys, "b", "c");
+        let e0 = cur_ent(sys, "c", "e");
+        let op = json!({"op": "scripted", "script": "child_holds_all_then_parent_shrinks", "parent": "c", "child": "e", "all": all_c});
+        let bits: Vec<u64> = (0..8).filter(|i| all_c & (1 << i) != 0).collect();
+        if bits.len() >= 2 {
+            let _ = step!(&op, sys.update_child_resources("c", "e", mask_to_rs(all_c)));
+            sync2!(&op, "c", "e");
+            let less = all_c & !atoms(1 << bits[bits.len() - 1]);
+            let _ = step!(&op, sys.update_child_resources("b", "c", mask_to_rs(less)));
+            sync2!(&op, "b", "c");           // c receives the smaller certificate: e's certificate shrinks in that command
+            let e_cert = sys.ca("c").ok().map(|c| { let j = to_json(&c); j["resources"].as_object().map(|o| o.values().flat_map(|rc| rc["certificates"]["issued"].as_object().map(|m| m.values().map(|c| res_json_mask(&c["resources"])).collect::<Vec<_>>()).unwrap_or_default()).fold(0, |a, b| a | b)).unwrap_or(0) }).unwrap_or(0);
+            note(format!("holds_all: child certificate after the parent shrank {}", if e_cert == less { "= parent's new certificate" } else { "DIFFERS from parent's new certificate" }));
+            emit_held(sys, it, Some(("c", "e")), "holds_all:parent-shrunk", &op, hist, out);
+            sync2!(&op, "c", "e");
+            let _ = step!(&op, sys.update_child_resources("b", "c", mask_to_rs(all_c)));
+            sync2!(&op, "b", "c");
+            let _ = step!(&op, sys.update_child_resources("c", "e", mask_to_rs(e0)));
+            sync2!(&op, "c", "e");
+            emit_held(sys, it, Some(("c", "e")), "holds_all:restored", &op, hist, out);
+        } else { note("holds_all: skipped".into()); }
+    }
+
+    // the two classes of `d` (one per parent)
+    let dcl: Vec<(String, u64)> = class_masks(sys, "d").into_iter().filter(|(_, m)| *m != 0).collect();
+    if dcl.len() < 2 { note("two-class parent: skipped".into()); return }
+    let ((_c0, r0), (c1, r1)) = (dcl[0].clone(), dcl[1].clone());
+
+    // (A) `f` under `d`: entitled in both classes; the entitlement in d's class c1 is taken away, given back, taken away
+    //     again, given back. Even histories: f gets its classes in d's order (names aligned at first, f's fresh name after
+    //     the regain differs); odd histories: in the opposite order (names crossed from the start).
+    // (B) `g` has the parent `a` first, then `d`: none of its class names under `d` coincides with d's.
+    for (x, other_parent) in [("f", None), ("g", Some("a"))] {
+        let crossed = x == "f" && hist % 2 == 1;
+        let op = json!({"op": "scripted", "script": "class_lost_regained_lost", "parent": "d", "child": x, "other_parent": other_parent, "crossed_names": crossed, "loses": c1});
+        if sys.add_ca(x).is_err() { note(format!("{x}: add failed")); continue }
+        if let Some(pp) = other_parent {
+            let _ = step!(&op, sys.add_parent(x, pp, mask_to_rs(atoms(0x01))));
+            sync2!(&op, pp, x);
+        }
+        let first = if crossed { r1 } else { r0 };
+        let _ = step!(&op, sys.add_parent(x, "d", mask_to_rs(first)));
+        sync2!(&op, "d", x);
+        let _ = step!(&op, sys.update_child_resources("d", x, mask_to_rs(r0 | r1)));
+        sync2!(&op, "d", x);
+        emit_held(sys, it, Some(("d", x)), "both-classes", &op, hist, out);
+        for round in 1..=2 {
+            let local = local_class_name(sys, x, "d", &c1);
+            note(format!("{x}: loss {round} of the class the parent calls {c1}: local name {}", match &local { Some(l) if *l == c1 => "= parent's name", Some(_) => "differs from parent's name", None => "NO SUCH CLASS" }));
+            let _ = step!(&op, sys.update_child_resources("d", x, mask_to_rs(r0)));
+            sync2!(&op, "d", x);
+            note(format!("{x}: after loss {round}: class {}", if local_class_name(sys, x, "d", &c1).is_none() { "dropped" } else { "STILL THERE" }));
+            emit_held(sys, it, Some(("d", x)), &format!("lost-{round}"), &op, hist, out);
+            let _ = step!(&op, sys.update_child_resources("d", x, mask_to_rs(r0 | r1)));
+            sync2!(&op, "d", x);
+            note(format!("{x}: after regain {round}: class {}", if local_class_name(sys, x, "d", &c1).is_some() { "back" } else { "MISSING" }));
+            emit_held(sys, it, Some(("d", x)), &format!("regained-{round}"), &op, hist, out);
+        }
+        if let Some(pp) = other_parent { emit_held(sys, it, Some((pp, x)), "other-parent", &op, hist, out); }
+    }
+    // in a quarter of the histories `g` then leaves the parent `d` altogether (revocations for every class under it)
+    if hist % 4 == 3 {
+        let op = json!({"op": "scripted", "script": "parent_removed", "parent": "d", "child": "g"});
+        let _ = step!(&op, sys.parent_remove("g", "d"));
+        emit_held(sys, it, Some(("d", "g")), "parent-removed", &op, hist, out);
+        note("g: parent d removed".into());
+    }
+}
+
 //------------------------------------------------------------------ one history
 
 fn cur_ent(sys: &Sys, p: &str, x: &str) -> u64 { sys.ca(p).ok().map(|c| res_json_mask(&to_json(&c)["children"][x]["resources"])).unwrap_or(0) }
-fn parent_choices(x: &str) -> &'static [&'static str] { match x { "a" => &["ta"], "b" => &["a"], "c" => &["b"], "d" => &["a", "b"], "e" => &["c"], _ => &["b"] } }
+fn parent_choices(x: &str) -> &'static [&'static str] { match x { "a" => &["ta"], "b" => &["a"], "c" => &["b"], "d" => &["a", "b"], "e" => &["c"], "f" => &["d"], "g" => &["a", "d"], _ => &["b"] } }
 fn universe(p: &str) -> u64 { match p { "a" => 0xff, "b" => 0x7f, "c" => 0x1f, _ => 0xff } }
 
 #[allow(clippy::too_many_lines)]
@@ -585,6 +732,7 @@ fn run_history(args: &Args, hist: u64, seed: u64, n_ops: u64, out: &Mutex<Out>) 
         emit_cmd_cases(&sys, &mut it, &before, &after(&sys), &json!({"op": "setup", "child": "l"}), hist, &mut marks, out);
     }
     let mut pr = Proto { id_key: pr_id, keys: Vec::new(), parent: "b" };
+    if args.get_u64("scripted", 1) == 1 { scripted(&sys, &mut it, hist, &mut marks, out); }
     let mut roas: BTreeMap<&str, Vec<String>> = BTreeMap::new();
     let mut since_settle = 0;
 
@@ -886,7 +1034,7 @@ fn main() {
     let header = format!("From KV Require ca.CaCheck.\n{header}");
     let out = Mutex::new(Out { w: CaseWriter::new(&args.out, &header, "list xcase", footer, 60),
         jsonl: std::fs::File::create(args.out.join("cases.jsonl")).unwrap(), op_hist: BTreeMap::new(), cmd_hist: BTreeMap::new(), err_hist: BTreeMap::new(), kind_hist: BTreeMap::new(),
-        shrink_hist: BTreeMap::new(), settle_rounds: BTreeMap::new(), distinct: BTreeSet::new(), samples: vec![], impl_failures: vec![] });
+        shrink_hist: BTreeMap::new(), settle_rounds: BTreeMap::new(), script_hist: BTreeMap::new(), distinct: BTreeSet::new(), samples: vec![], impl_failures: vec![] });
     std::panic::set_hook(Box::new(|_| {}));
     let mut rng = Rng::new(args.seed);
     let seeds: Vec<u64> = (0..n_hist).map(|_| rng.next()).collect();
@@ -913,7 +1061,7 @@ fn main() {
         "evaluations": o.w.total, "distinct_nontrivial": o.distinct.len(),
         "rule": "random histories on TA->a->{b->{c->e,d,l},d} in one in-process runtime: entitlement changes at every level (grow, shrink, partial, family-partial, nothing, regain, disjoint), syncs, key-roll steps, suspend/unsuspend, ROA changes, RFC 6492 list/issue(with request limits)/revoke by a harness-built child, republish/repo sync/ASPA; cases: one per stored command (real state before/after that command, published child certificates decoded after the last command of an API call), one per sync-driver call (parent class, child details, child class before/after), one per settle run; non-trivial = every case (a stored command, a sync call or a settle run); distinct = distinct (kind, command type, error flag, key states before, finding class) resp. (child key state, open request, suspended, error, commands stored) resp. (rounds, extra)",
         "op_distribution": o.op_hist, "command_distribution": o.cmd_hist, "error_distribution": o.err_hist, "kind_distribution": o.kind_hist,
-        "received_cert_distribution": o.shrink_hist, "settle_rounds_distribution": o.settle_rounds,
+        "received_cert_distribution": o.shrink_hist, "settle_rounds_distribution": o.settle_rounds, "scripted_distribution": o.script_hist,
         "modes": {"limits": args.get_u64("limits", 0), "rollshrink": args.get_u64("rollshrink", 0), "stuck": args.get_u64("stuck", 0)},
         "samples": o.samples, "impl_failures": o.impl_failures,
     }));
